@@ -327,6 +327,8 @@ func init() {
 			runJSONLiterals(c, r, "TAB")
 			r.RequireMin("TAB JSON-literal obligations", len(r.Obls), 14)
 			runESCSKIP(c, r, "ESCSKIP")
+			wsd := runWSDEF(c, r, "WSDEF")
+			r.RequireMin("WSDEF definitions of whitespace in the lexer", wsd, 1)
 			k := runLIT(c, r, "LIT")
 			r.RequireMin("LIT literal-flow obligations", k, 6)
 			runW(c, c.G, r, "W-compile", compileRootCfg(c))
@@ -1196,8 +1198,10 @@ func init() {
 		ID:          "C20",
 		Explanation: "Decides the registry-visibility and registration-time clauses: (REG) in processExts/processVars every store into the registry map is dominated by the success edges of validName and newGoCallable/validVar applied to that entry; newEnv builds a child of baseEnv and binds $, then $now/$millis, then the expression's registry; updateRegistry only ranges over the map it is given. (LOCK) the global registry is accessed under its mutex and never escapes the critical section, so an Expr holds a per-key copy taken at Compile time and later package-level registrations cannot reach it; it is not referenced under Eval. (W) (*Expr).RegisterExts/RegisterVars write only their receiver's own registry and fresh memory; package-level registration writes only the locked global. NOT decided: the argument-conversion relation and the naming of errors (value-level). (HORDER) the EvalContextHandler hook is consulted before the UndefinedHandler hook sees the arguments; (CALLSEQ) the Go function is only invoked with validateArgTypes(validateArgCount(argv)), each error tested; (ZERO) a missing argument becomes a zero value only for Optional types, interface{} and reflect.Value; (ARGPOS) an ArgTypeError reports the index in the argument list plus one.",
 		Rule:        commonRule,
-		Fixtures:    []string{"w", "lock"},
+		Fixtures:    []string{"w", "lock", "shape"},
 		Run: func(c *Ctx, r *Result) {
+			ei := runERRIS(c, r, "ERRIS", libFuncsIn(c, c.REval))
+			r.Count("ERRIS errors.Is/As calls under Eval", ei)
 			runREG(c, r, "REG")
 			runLOCK(c, r, "LOCK")
 			runW(c, c.G, r, "W-register", pkgRegisterRootCfg(c))
@@ -1243,6 +1247,14 @@ func init() {
 			tabProved := map[string]bool{"jparse.parseBoolean": true, "jparse.parseNumericOperator": true, "jparse.parseComparisonOperator": true, "jparse.parseBooleanOperator": true}
 			p := runPanics(c, r, "PANIC", c.RCompile, tabProved)
 			r.RequireMin("PANIC string panics under Compile", p, 4)
+			var pf []*ssa.Function
+			for _, f := range srcFuncsIn(c.RCompile) {
+				if f.Pkg != nil && f.Pkg.Pkg.Name() == "jparse" {
+					pf = append(pf, f)
+				}
+			}
+			pr := runPAIR(c, r, "PAIR", pf)
+			r.RequireMin("PAIR returns of (node, error) functions in jparse", pr, 100)
 			ed := runERRDROP(c, r, "ERRDROP", srcFuncsIn(c.RCompile))
 			r.RequireMin("ERRDROP errors produced inside loops under Compile", ed, 8)
 			oa := runOPTALL(c, r, "OPTALL")
